@@ -39,8 +39,15 @@ var transferCols = []wpg.Column{{Name: "ev_from", Type: "bytea"}, {Name: "ev_to"
 
 // chain whose first log of every tx is an ERC-20 Transfer and second a decoy
 func transferChain(n int, salt uint64) *simnode.Chain {
-	// three transactions per block; the third emits no log at all (a plain transfer / a log-less call)
-	return simnode.NewChain(n, simnode.GenOpts{Salt: salt, MakeTx: transferMakeTx, TxsPerBlock: func(uint64) int { return 3 }})
+	// three transactions per block; the third emits no log at all (a plain transfer / a log-less call).
+	// Blocks 2, 3 (mod 5) hold a single transaction: consecutive blocks whose logs all sit at the SAME
+	// transaction index (an eth_getLogs reply then has neighbouring items that differ in the block only)
+	return simnode.NewChain(n, simnode.GenOpts{Salt: salt, MakeTx: transferMakeTx, TxsPerBlock: func(num uint64) int {
+		if num%5 == 2 || num%5 == 3 {
+			return 1
+		}
+		return 3
+	}})
 }
 
 func padAddr(a []byte) []byte { return append(make([]byte, 12), a...) }
